@@ -180,6 +180,35 @@ def run(ctx):
             ctx.ob('INIT-VALIDATE', '%s:%s#%d' % (g.name, g.s(d)[:40], k), ok, g.loc(n), 'divisor %s %s' % (g.s(d), 'proven >= 1 (%s..%s)' % (bb.lo, bb.hi) if ok else 'NOT proven non-zero (%r)' % bb), None)
     ctx.require(ninit >= 3, 'only %d geometry divisions by caller-supplied values found in init functions' % ninit)
 
+    ctx.rule('GEOM-LINK', 'block codecs whose decode loop is bounded by blocksize while the sample buffer is sized by samplesperblock (MS ADPCM, WAV IMA ADPCM): the reader init rejects a header in which '
+             'samplesperblock is smaller than the count that blocksize implies - the rejecting test `samplesperblock OP count` (count computed from blocksize in the same function) has OP in '
+             '{!=, <, <=} and its then-branch returns an error', floor=2)
+    n_gl = 0
+    for f in sorted(prog.lib_fns(), key=lambda f: (f.file, f.line)):
+        if not (f.file.endswith('ms_adpcm.c') or f.file.endswith('ima_adpcm.c')) or 'init' not in f.name:
+            continue
+        defs_c = [(lv, a, r) for lv, a, r in assigned_lvalues(f) if lv == 'count' and r is not None and 'blocksize' in f.s(r)]
+        if not defs_c:
+            continue
+        hits = []
+        for n in f.walk():
+            if n['k'] != 'IfStmt':
+                continue
+            cn = f.unwrap(f.N[n['cond']])
+            if cn.get('k') != 'BinaryOperator' or cn.get('op') not in ('!=', '<', '<=', '>', '>=', '=='):
+                continue
+            l, r = f.s(f.unwrap(f.N[cn['kids'][0]])), f.s(f.unwrap(f.N[cn['kids'][1]]))
+            if l.endswith('samplesperblock') and r == 'count':
+                hits.append((n, cn, cn['op']))
+            elif r.endswith('samplesperblock') and l == 'count':
+                hits.append((n, cn, {'<': '>', '>': '<', '<=': '>=', '>=': '<='}.get(cn['op'], cn['op'])))
+        n_gl += 1
+        ok = any(op in ('!=', '<', '<=') and any(x['k'] == 'ReturnStmt' for x in f.walk(f.N[n['then']])) for n, cn, op in hits)
+        ctx.ob('GEOM-LINK', f.name, ok, f.loc(hits[0][0]) if hits else f.loc(defs_c[0][1]), ('`%s` -> error' % f.s(hits[0][1])) if ok else
+               'no test rejects samplesperblock < count (count = %s): the decode loop runs to blocksize and stores past the buffer sized by samplesperblock%s' % (
+                   f.s(defs_c[0][2])[:60], (' (found only `%s`)' % f.s(hits[0][1])) if hits else ''), None)
+    ctx.require(n_gl >= 2, 'only %d reader inits with a blocksize-derived count found' % n_gl)
+
     ctx.rule('SIZEOF-MATCH', 'every sized copy (snprintf, psf_strlcpy, strncpy, memcpy, memset ...) whose size argument is sizeof (object) names the object it writes to '
              '(a sizeof of a different, smaller or larger, member type-checks and truncates or overflows silently)', floor=60)
     from engine.sizeofrule import sizeof_match
